@@ -86,12 +86,16 @@ def for_hook(E, st, args, kw):
     if isinstance(it, VObj) and it.cls == "seqdict":
         it = st.new_obj("seqdict_view", d=it, kind="keys")
     generic = None
-    if isinstance(it, VObj) and it.cls != "seqdict_view":
+    if hasattr(it, "iter_spec_v"):
+        generic = it.iter_spec_v(E, st)
+    elif isinstance(it, VObj) and it.cls != "seqdict_view":
         m = R.models.get(it.cls)
         if m is not None and hasattr(m, "iter_spec"):
             generic = m.iter_spec(E, st, it)       # (length term, element function j -> V)
     if generic is None and not (isinstance(it, VObj) and it.cls == "seqdict_view"):
         raise Unsupported("for loop over %r at line %d" % (it, node.lineno))
+    if generic is not None and len(generic) > 2:
+        st.assume(*generic[2])
     k = E.loop_ordinal(node)
     key = "idx%d" % k
     st.ghost[key] = VInt(0)
